@@ -17,6 +17,10 @@ fn out_pair_json(l: &mut Line, r: &Out<(Vec<u8>, Vec<u8>)>) {
 
 thread_local! { static MODEL_EVERY: std::cell::Cell<(u64, u64)> = std::cell::Cell::new((1, 0)); }
 
+pub fn set_model_every(k: u64) {
+    MODEL_EVERY.with(|m| m.set((k, 0)));
+}
+
 /// in the quick tier only every k-th case of the more expensive shapes is re-computed by the model
 fn model_this() -> bool {
     MODEL_EVERY.with(|m| {
@@ -26,7 +30,7 @@ fn model_this() -> bool {
     })
 }
 
-fn keygen_case(shape: &Shape, seed: &[u8], aux_in: &[u8], tag: &str, base: &Out<(Vec<u8>, Vec<u8>)>, cost: f64, kf: &str) -> Vec<u8> {
+pub fn keygen_case(shape: &Shape, seed: &[u8], aux_in: &[u8], tag: &str, base: &Out<(Vec<u8>, Vec<u8>)>, cost: f64, kf: &str) -> Vec<u8> {
     let mut aux = aux_in.to_vec();
     let r = keygen_aux(shape.hash, &shape.levels, seed, &mut aux);
     let mut l = Line::new("keygen_aux");
@@ -45,7 +49,7 @@ fn keygen_case(shape: &Shape, seed: &[u8], aux_in: &[u8], tag: &str, base: &Out<
 }
 
 #[allow(clippy::too_many_arguments)]
-fn sign_case(shape: &Shape, blob: &[u8], msg: &[u8], aux_in: &[u8], tag: &str, base: &(Out<Vec<u8>>, Vec<(Vec<u8>, bool)>), cost: f64, kf: &str) {
+pub fn sign_case(shape: &Shape, blob: &[u8], msg: &[u8], aux_in: &[u8], tag: &str, base: &(Out<Vec<u8>>, Vec<(Vec<u8>, bool)>), cost: f64, kf: &str) {
     let mut aux = aux_in.to_vec();
     let (out, calls) = sign(shape.hash, blob, msg, true, Some(&mut aux));
     let mut l = Line::new("sign_aux");
